@@ -5,7 +5,7 @@ From Coq Require Import ZArith QArith List.
 From Coq Require Import Qcanon.
 From PV Require Import Base.QUtil Base.Round Gen.GenShape Model.Shape Model.EventLib Model.Seq Model.Dedup Model.Signature.
 Extraction Language OCaml.
-Extraction "../ocaml/model.ml"
+Extraction "../ocaml/seq/model.ml"
   Qred Qplus Qmult Qminus Qdiv Qle_bool Qeq_bool
   rnd_he compress decompress quantise pack unpack_go cumsumQ
   Q2Qc round_spec round_row round_all core_init run step decode seq_step seq_run seq_dedup
